@@ -12,6 +12,15 @@ package manifest
 //@   loop 1 invariant [pos-in-bounds] 0 <= pos && pos <= len(data)
 //@   loop 1 invariant [peers-bounded] uint64(len(peers)) <= i && i <= peersCount && peersCount <= uint64(len(data))
 
+// The varint helper closure of decodeEdit: it keeps pos inside the payload.
+//
+//@ func decodeEdit$1
+//@   property C16 C15
+//@   requires 0 <= pos && pos <= len(data)
+//@   ensures [pos-in-bounds] 0 <= pos && pos <= len(data)
+//@   ensures [pos-monotone] old(pos) <= pos
+//@   modifies pos, malformed
+
 //@ func readBytes
 //@   property C16 C15
 //@   tag decoder
